@@ -3,6 +3,7 @@
 // complete). Verified against a byte-sequence model of bytes::BytesMut (assumed; the Kani harnesses of C14 run the real BytesMut on
 // bounded streams).
 use vstd::prelude::*;
+use std::mem::MaybeUninit;
 
 verus! {
 
@@ -32,6 +33,28 @@ impl BytesMut {
     pub fn split_to(&mut self, at: usize) -> (r: BytesMut)
         requires at <= old(self)@.len(),
         ensures r@ == old(self)@.take(at as int), final(self)@ == old(self)@.skip(at as int),
+    { unimplemented!() }
+    // capacity model: `capacity() >= len()` always; `reserve(n)` makes room for at least n more bytes and keeps the content;
+    // `spare_capacity_mut()` is the unused tail, `capacity() - len()` long; `set_len` (unsafe) requires the new length to be within
+    // the capacity and keeps the old content as a prefix (the new bytes are whatever was written into the spare capacity)
+    pub uninterp spec fn spec_capacity(&self) -> usize;
+    #[verifier::external_body]
+    pub fn capacity(&self) -> (r: usize) ensures r == self.spec_capacity(), r >= self@.len() { unimplemented!() }
+    #[verifier::external_body]
+    pub fn reserve(&mut self, additional: usize)
+        ensures final(self)@ == old(self)@, final(self).spec_capacity() >= old(self)@.len() + additional,
+            final(self).spec_capacity() >= old(self).spec_capacity(),
+    { unimplemented!() }
+    #[verifier::external_body]
+    pub fn spare_capacity_mut(&mut self) -> (r: &mut [MaybeUninit<u8>])
+        ensures r@.len() == old(self).spec_capacity() - old(self)@.len(), final(self)@ == old(self)@,
+            final(self).spec_capacity() == old(self).spec_capacity(),
+    { unimplemented!() }
+    #[verifier::external_body]
+    pub unsafe fn set_len(&mut self, len: usize)
+        requires len <= old(self).spec_capacity(),
+        ensures final(self)@.len() == len, final(self).spec_capacity() == old(self).spec_capacity(),
+            len >= old(self)@.len() ==> final(self)@.take(old(self)@.len() as int) == old(self)@,
     { unimplemented!() }
     #[verifier::external_body]
     pub fn truncate(&mut self, len: usize)
@@ -137,6 +160,8 @@ pub proof fn lemma_frames_append(s: Seq<u8>, t: Seq<u8>)
 }
 
 // ---- extracted ---------------------------------------------------------------------------------
+//@item core/src/message/packetizer.rs const MIN_RESERVE_CAPACITY
+//@item core/src/message/packetizer.rs const MAX_RESERVE_CAPACITY
 //@item core/src/message/packetizer.rs struct Packetizer
 
 impl Packetizer {
@@ -152,6 +177,22 @@ impl Packetizer {
     //@fn core/src/message/packetizer.rs Packetizer::extend_from_slice vis=crate
         requires old(self).inv(),
         ensures final(self).inv(), final(self).buf@ == old(self).buf@ + bytes@,
+    //@end
+
+    // the zero-copy input interface: the slice handed out for writing is never empty and the buffered bytes are untouched
+    // CALLER PROTOCOL (a precondition the doc comment does not state): no complete frame is waiting in the buffer, i.e. next_message
+    // was drained -- the tokio transport and the fuzz targets always call next_message first. Without it (a cached length, that many
+    // bytes buffered, capacity exactly used up) the slice WOULD be empty.
+    //@fn core/src/message/packetizer.rs Packetizer::spare_capacity_mut vis=crate
+        requires old(self).inv(), old(self).len matches Some(l) ==> old(self).buf@.len() < l,
+        ensures r@.len() > 0, final(self).inv(), final(self).buf@ == old(self).buf@, final(self).len == old(self).len,
+    //@end
+
+    // (unsafe: the caller promises that `len` bytes of that slice were initialised, so `len` is within the spare capacity)
+    //@fn core/src/message/packetizer.rs Packetizer::bytes_written vis=crate
+        requires old(self).inv(), old(self).buf@.len() + len <= old(self).buf.spec_capacity(),
+        ensures final(self).inv(), final(self).buf@.len() == old(self).buf@.len() + len,
+            final(self).buf@.take(old(self).buf@.len() as int) == old(self).buf@, final(self).len == old(self).len,
     //@end
 
     //@fn core/src/message/packetizer.rs Packetizer::next_message vis=crate
